@@ -31,6 +31,10 @@ Record members := mkMembers { inner : list member; cursor : N; num_active : N }.
 Definition members_new (l : list member) : members :=
   mkMembers l 0 (len (filter m_active l)).
 
+(* Note on saturating arithmetic: `pos.saturating_add(1)` and
+   `num_active.saturating_add(1)` can never saturate (a Vec holds at most
+   isize::MAX elements), so they are modelled as plain +1. *)
+
 (* Members::next.  Returns the new state, the chosen member and the next oracle index. *)
 Definition members_next (ms : members) (k : N) : members * option member * N :=
   let '(inn, cur, k1) :=
@@ -45,7 +49,7 @@ Definition members_next (ms : members) (k : N) : members * option member * N :=
     end in
   match pos with
   | Some p =>
-      let cur' := if Nat.ltb p c then usize_max else sat_add_usize (N.of_nat p) 1 in
+      let cur' := if Nat.ltb p c then usize_max else N.of_nat p + 1 in
       (mkMembers inn cur' (num_active ms), nth_error inn p, k1)
   | None => (mkMembers inn cur (num_active ms), None, k1)
   end.
@@ -71,8 +75,8 @@ Definition choose_members (ms : members) (wanted : N) (picker : member -> bool) 
   : list member * N :=
   choose_loop picker wanted (inner ms) [] 0 k.
 
-Definition choose_down_members (ms : members) (wanted k : N) :=
-  choose_members ms wanted (fun m => negb (m_active m)) k.
+Definition choose_down_members_if (ms : members) (wanted : N) (picker : Id -> bool) (k : N) :=
+  choose_members ms wanted (fun m => negb (m_active m) && picker (m_id m)) k.
 
 Definition choose_active_members (ms : members) (wanted : N) (picker : Id -> bool) (k : N) :=
   choose_members ms wanted (fun m => m_active m && picker (m_id m)) k.
@@ -122,7 +126,7 @@ Definition apply_existing_if (ms : members) (u : member) (cond : member -> bool)
             let changed := negb (Bool.eqb now was_active) in
             let na :=
               if changed
-              then (if now then sat_add_usize (num_active ms) 1 else num_active ms - 1)
+              then (if now then num_active ms + 1 else num_active ms - 1)
               else num_active ms in
             Some (mkMembers (set_nth p known' (inner ms)) (cursor ms) na,
                   mkSummary now ok changed cf)
@@ -139,7 +143,7 @@ Definition members_apply (ms : members) (u : member) (k : N) : members * summary
       let inserted_at := (length l - 1)%nat in
       let idx := N.to_nat (below (len l) (rnd k (RChoose (len l)))) in
       let l' := swap l idx inserted_at in
-      let na := if now then sat_add_usize (num_active ms) 1 else num_active ms in
+      let na := if now then num_active ms + 1 else num_active ms in
       (mkMembers l' (cursor ms) na, mkSummary now true now NoConflict, k + 1)
   end.
 
